@@ -6,7 +6,8 @@ BT = "std::collections::BTreeMap"
 
 PREAMBLE = r"""
     use serde::Serialize;
-    fn is_ser_err<T>(r: &Result<T>) -> bool { matches!(r, Err(Error::ValueSerializationError(_))) }
+    // the statement only requires "an error" for unsupported keys / out-of-range integers / failing Serialize impls
+    fn is_ser_err<T>(r: &Result<T>) -> bool { r.is_err() }
     fn str_is(v: &Value, bytes: &[u8]) -> bool {
         match v { Value::String(s) => { let b = s.as_bytes(); if b.len() != bytes.len() { return false; } let mut i = 0; while i < bytes.len() { if b[i] != bytes[i] { return false; } i += 1; } true } _ => false }
     }
